@@ -186,7 +186,7 @@ pub fn record_c13_bfs(a: &Args, out: &mut TraceOut) -> Value {
     let mut total_nodes = 0usize;
     let mut total_edges = 0usize;
     let configs: Vec<(u16, u16, PageFlipStyle)> =
-        vec![(3, 4, PageFlipStyle::Manual), (0xFFFF, 0, PageFlipStyle::Automatic)];
+        vec![(3, 4, PageFlipStyle::Manual), (0xFFFF, 0, PageFlipStyle::Automatic), (0x0012, 0x8012, PageFlipStyle::Manual)];
     for (own, other, flip) in configs {
         let alphabet = bfs_alphabet(own, other, thorough);
         let mut nodes: Vec<Node> = vec![Node { sign: VirtualSign::new(Address(own), flip), parent: None, depth: 0, sd_run: 0, children: vec![] }];
@@ -326,7 +326,17 @@ impl Walker {
                 ];
                 all[rng.gen_range(0..all.len())].to_bytes().to_vec()
             }
-            4..=5 => cfg_tiny(),
+            4 => cfg_tiny(),
+            5 => {
+                // a real block with one to three of its other bytes altered (known family/id, different size fields)
+                let all = crate::ctl::ALL_TYPES;
+                let mut b = all[rng.gen_range(0..all.len())].to_bytes().to_vec();
+                for _ in 0..rng.gen_range(1..=3) {
+                    let k = rng.gen_range(2..16);
+                    b[k] = [0u8, 1, 7, 8, 9, 16, 28, 30, 200, 255][rng.gen_range(0..10)];
+                }
+                b
+            }
             6 => cfg_horizon(),
             7 => {
                 // arbitrary contents, real family
@@ -489,7 +499,7 @@ pub fn record_walks(a: &Args, out: &mut TraceOut, seed_salt: u64, walks: usize, 
             3 => 0x100,
             _ => rng.r#gen(),
         };
-        let foreign = own.wrapping_add(1);
+        let foreign = own ^ (1u16 << (w % 16)); // a near miss: differs from the own address in exactly one bit
         let flip = if w % 2 == 0 { PageFlipStyle::Manual } else { PageFlipStyle::Automatic };
         let mut walker = Walker { rng, own: vec![own], foreign, cfg_dims: None };
         let mut s = VirtualSign::new(Address(own), flip);
@@ -649,6 +659,14 @@ pub fn record_directed(out: &mut TraceOut, thorough: bool) -> Value {
     if thorough {
         customs.push(vec![4, 0x99, 0, 0, 0xFF, 0xFF, 0xFF, 0xFF, 0xFF, 0x10, 0, 0, 0, 0, 0, 0]); // 1020 x 255 (32656 bytes)
     }
+    // every known (family, id) with altered height / width fields
+    for t in crate::ctl::ALL_TYPES {
+        for (k, val) in [(4usize, 9u8), (5, 0x1C), (7, 0x31), (8, 1), (9, 0x10)] {
+            let mut b = t.to_bytes().to_vec();
+            b[k] = val;
+            customs.push(b);
+        }
+    }
     for (ci, cfg) in customs.iter().enumerate() {
         let (w, h) = documented_dims(cfg).unwrap();
         let total = ((4 + w as usize * ((h as usize + 7) / 8) + 15) / 16) * 16;
@@ -667,6 +685,21 @@ pub fn record_directed(out: &mut TraceOut, thorough: bool) -> Value {
         v.push(Message::PixelsComplete(a));
         v.push(Message::QueryState(a));
         run(out, v, if ci % 2 == 0 { PageFlipStyle::Manual } else { PageFlipStyle::Automatic });
+    }
+    // more than 64 KiB buffered in one transfer without ever restarting at offset 0 (300 chunks of 255 bytes at a fixed offset)
+    {
+        let mut v = vec![Message::RequestOperation(a, Operation::ReceiveConfig), sd(0, &cfg_tiny()), Message::DataChunksSent(ChunkCount(1)), Message::RequestOperation(a, Operation::ReceivePixels)];
+        for i in 0..300u32 {
+            v.push(sd(if i % 2 == 0 { 16 } else { 0xFFF0 }, &[0xAB; 255]));
+        }
+        v.push(Message::DataChunksSent(ChunkCount(300)));
+        v.push(Message::QueryState(a));
+        v.push(sd(16, &[1; 16]));
+        v.push(Message::RequestOperation(a, Operation::ReceivePixels));
+        v.push(sd(32, &[2; 16]));
+        v.push(Message::DataChunksSent(ChunkCount(1)));
+        v.push(Message::QueryState(a));
+        run(out, v, PageFlipStyle::Manual);
     }
     if thorough {
         // 65536 + 5 chunks in one transfer (the 16-bit counter wraps)
@@ -726,6 +759,14 @@ pub fn record_bus_walks(a: &Args, out: &mut TraceOut, salt: u64, walks: usize, s
         let n = 1 + (w % 4);
         let mut addrs: Vec<u16> = vec![];
         while addrs.len() < n {
+            // half of the populations consist of addresses that differ from the first one in a single bit
+            if !addrs.is_empty() && w % 2 == 0 {
+                let x = addrs[0] ^ (1u16 << ((w / 2 + addrs.len() * 5) % 16));
+                if !addrs.contains(&x) {
+                    addrs.push(x);
+                    continue;
+                }
+            }
             let x: u16 = match rng.gen_range(0..6) {
                 0 => 0,
                 1 => 0xFFFF,
@@ -737,7 +778,8 @@ pub fn record_bus_walks(a: &Args, out: &mut TraceOut, salt: u64, walks: usize, s
                 addrs.push(x);
             }
         }
-        let mut absent: u16 = rng.r#gen();
+        // the absent address is a single-bit neighbour of a present one (bit 15, 8, 0, ... in turn)
+        let mut absent: u16 = addrs[0] ^ (1u16 << ((15 + w * 7) % 16));
         while addrs.contains(&absent) {
             absent = absent.wrapping_add(1);
         }
@@ -796,9 +838,97 @@ pub fn record_bus_walks(a: &Args, out: &mut TraceOut, salt: u64, walks: usize, s
     json!({"bus_steps": total, "panics": panics})
 }
 
+/// A scripted bus history, recorded like the random ones (busreset / busstep with before, solo, soloobs).
+fn run_bus_script(out: &mut TraceOut, desc: &[(u16, PageFlipStyle)], msgs: Vec<Message<'static>>) -> usize {
+    let n = desc.len();
+    let mut bus = VirtualSignBus::new(desc.iter().map(|(a, f)| VirtualSign::new(Address(*a), *f)).collect::<Vec<_>>());
+    out.emit(json!({"e": "busreset", "signs": desc.iter().map(|(a, f)| json!({"addr": a, "flip": flip_name(*f)})).collect::<Vec<_>>()}));
+    let mut steps = 0;
+    for m in msgs {
+        let solo: Vec<Value> = (0..n)
+            .map(|i| {
+                let mut c = bus.sign(i).clone();
+                let (r, fine) = apply(&mut c, &m);
+                json!({"r": r, "obs": if fine { obs(&c) } else { Value::Null }})
+            })
+            .collect();
+        let before = bus_obs(&bus, n);
+        let r = catch(|| bus.process_message(m.clone()));
+        steps += 1;
+        match r {
+            Ok(Ok(reply)) => out.emit(json!({"e": "busstep", "m": j::msg(&m), "r": j::reply(&reply), "before": before, "obs": bus_obs(&bus, n),
+                                             "solo": solo.iter().map(|s| s["r"].clone()).collect::<Vec<_>>(),
+                                             "soloobs": solo.iter().map(|s| s["obs"].clone()).collect::<Vec<_>>()})),
+            _ => {
+                out.emit(json!({"e": "busstep", "m": j::msg(&m), "r": panic_reply(), "obs": []}));
+                break;
+            }
+        }
+    }
+    steps
+}
+
+/// Directed bus histories for C14: two signs mid-transfer at once with a very long chunk stream; address pairs that
+/// differ in one bit; every addressed kind sent to the single-bit neighbours of a present address.
+fn record_bus_directed(out: &mut TraceOut) -> Value {
+    let mut steps = 0usize;
+    let cfg = |a: u16| -> Vec<Message<'static>> {
+        vec![Message::RequestOperation(Address(a), Operation::ReceiveConfig), sd(0, &cfg_tiny()), Message::DataChunksSent(ChunkCount(1)),
+             Message::RequestOperation(Address(a), Operation::ReceivePixels)]
+    };
+    // (1) sign A buffers far more than 64 KiB while sign B (behind it on the bus) is mid-transfer too
+    for order in 0..2 {
+        out.balance();
+        let (a, b) = if order == 0 { (3u16, 4u16) } else { (4, 3) };
+        let mut v = cfg(a);
+        for i in 0..200u32 {
+            v.push(sd(if i % 2 == 0 { 16 } else { 32 }, &[0xCD; 255]));
+        }
+        v.extend(cfg(b));
+        for _ in 0..70 {
+            v.push(sd(16, &[0xEF; 255]));
+        }
+        v.push(Message::DataChunksSent(ChunkCount(70)));
+        v.push(Message::QueryState(Address(a)));
+        v.push(Message::QueryState(Address(b)));
+        steps += run_bus_script(out, &[(3, PageFlipStyle::Manual), (4, PageFlipStyle::Automatic)], v);
+    }
+    // (2) single-bit neighbours: every addressed kind to x ^ (1 << k), with x alone and with both on the bus
+    for (k, x) in [(15usize, 0x0012u16), (15, 0xFFFF), (8, 0x0003), (0, 0x0100), (7, 0x1234), (14, 0x4000)] {
+        let y = x ^ (1u16 << k);
+        for both in [false, true] {
+            out.balance();
+            let desc: Vec<(u16, PageFlipStyle)> = if both { vec![(x, PageFlipStyle::Manual), (y, PageFlipStyle::Manual)] } else { vec![(x, PageFlipStyle::Automatic)] };
+            let mut v = vec![];
+            v.extend(cfg(x));
+            v.push(sd(0, &[1, 16, 0, 0, 0, 0, 0, 0, 0, 0, 0, 0, 255, 255, 255, 255]));
+            v.push(Message::DataChunksSent(ChunkCount(1)));
+            for target in [y, x, y] {
+                let t = Address(target);
+                v.push(Message::Hello(t));
+                v.push(Message::QueryState(t));
+                v.push(Message::PixelsComplete(t));
+                for o in j::OPS {
+                    v.push(Message::RequestOperation(t, o));
+                }
+                v.push(Message::Goodbye(t));
+                if target == y {
+                    v.extend(cfg(x));
+                    v.push(sd(0, &[2, 16, 0, 0, 0, 0, 0, 0, 0, 0, 0, 0, 255, 255, 255, 255]));
+                    v.push(Message::DataChunksSent(ChunkCount(1)));
+                }
+            }
+            steps += run_bus_script(out, &desc, v);
+        }
+    }
+    json!({"directed_bus_steps": steps})
+}
+
 pub fn record_c14(a: &Args) -> usize {
     let mut out = TraceOut::new(&a.out, "C14", a.shards);
     let thorough = a.tier == "thorough";
+    let d = record_bus_directed(&mut out);
+    println!("INFO {}", json!({"directed": d}));
     let b = record_bus_walks(a, &mut out, 0xC14, if thorough { 160 } else { 24 }, if thorough { 2500 } else { 400 }, false);
     println!("INFO {}", json!({"bus": b}));
     out.finish()
